@@ -91,6 +91,12 @@ Theorem C28_label_user_transform_wins_refuted :
   /\ set_dims_label upper lower title true it <> set_dims_label upper lower title false it.
 Proof. exact capslock_changes_lowercased_label. Qed.
 
+(* the repair recorded in coq/C28/fix.patch makes the statement unconditional *)
+Theorem C28_label_user_transform_wins_after_fix : forall (upper lower title : string -> string) caps it v,
+  l_tt it = Some v ->
+  set_dims_label_fixed upper lower title caps it = set_dims_label_fixed upper lower title false it.
+Proof. exact label_user_transform_wins_fixed. Qed.
+
 Example C28_label_hyps_satisfiable :
   let id := fun s : string => s in
   caps_commutes_at id id id (Some "lowercase") "abc" /\ In "lowercase" valid_tts.
@@ -127,3 +133,4 @@ Print Assumptions C28_catalog_lookup.
 Print Assumptions C28_label_user_transform_wins.
 Print Assumptions C28_label_hypothesis_checked_is_the_hypothesis.
 Print Assumptions C28_label_user_transform_wins_refuted.
+Print Assumptions C28_label_user_transform_wins_after_fix.
